@@ -1,4 +1,4 @@
-Require Import Base.Bytes Net.Frame Net.FrameProofs Net.Framed Net.FramedProofs Net.Concrete Gen.NetConsts.
+Require Import Base.Bytes Net.Frame Net.FrameProofs Net.Framed Net.FramedProofs Net.Async Net.NoHoldBack Net.Concrete Gen.NetConsts.
 Require Import Props.C05.
 Local Open Scope N_scope.
 Check c05_session_independent_of_segmentation :
@@ -21,8 +21,25 @@ Check c05_strict_prefix_needs_more :
   decode packet parse m (firstn k f) = NeedMore.
 Check c05_constants_tied : consts_tied = true.
 Check c05_model_state_is_the_struct : state_tied = true.
+Check c05_buffered_frame_is_served_without_more_input :
+  forall (packet : Type) (parse : bytes -> res packet) (ver_of : packet -> option N)
+         (is_keepalive : packet -> bool) (version : N) (m : mode) (verify : bool) (pong : bytes),
+  (forall b, parse b <> Panic) ->
+  forall f rest tr, wf_frame m f ->
+    read packet parse ver_of is_keepalive version m verify pong (f ++ rest) tr
+      = (expected_frame packet parse ver_of is_keepalive version verify pong f, rest, tr).
+Check c05_buffered_frame_is_served_without_more_input_async :
+  forall (packet : Type) (parse : bytes -> res packet) (ver_of : packet -> option N)
+         (is_keepalive : packet -> bool) (version : N) (m : mode) (verify : bool) (pong : bytes),
+  (forall b, parse b <> Panic) ->
+  forall f rest (s : fstate packet) rs ws, wf_frame m f ->
+    fbuf s = f ++ rest -> pend_w s = [] -> pend_p s = None ->
+    let '(o, s', rs', ws', w) := poll_from packet parse ver_of is_keepalive version m verify pong Top s rs ws in
+    rs' = rs /\ o <> PPending InRead.
 Print Assumptions c05_session_independent_of_segmentation.
 Print Assumptions c05_complete_frame_decodes.
 Print Assumptions c05_strict_prefix_needs_more.
 Print Assumptions c05_constants_tied.
 Print Assumptions c05_model_state_is_the_struct.
+Print Assumptions c05_buffered_frame_is_served_without_more_input.
+Print Assumptions c05_buffered_frame_is_served_without_more_input_async.
